@@ -15,24 +15,36 @@ pub mod ov {
         v.push(b',');
         storage.set(b"ov", &v);
     }
+    fn failing(storage: &dyn Storage, k: &str) -> StdResult<()> {
+        if storage.get(b"ovfail").is_some() {
+            return Err(StdError::generic_err(format!("ov-fail:{}", k)));
+        }
+        Ok(())
+    }
     pub fn instantiate(deps: DepsMut, env: Env, info: MessageInfo, msg: super::sv::InstantiateMsg) -> StdResult<Response> {
+        if msg.a == 13 {
+            return Err(StdError::generic_err("ov-fail:instantiate"));
+        }
         mark(deps.storage, "instantiate");
-        msg.dispatch(&Ct::new(), (deps, env, info))
+        msg.dispatch(&Ct::new(), (deps, env, info)).map_err(|e| StdError::generic_err(e.to_string()))
     }
     pub fn execute(deps: DepsMut, env: Env, info: MessageInfo, msg: super::sv::ContractExecMsg) -> StdResult<Response> {
+        failing(deps.storage, "exec")?;
         mark(deps.storage, "exec");
-        msg.dispatch(&Ct::new(), (deps, env, info))
+        msg.dispatch(&Ct::new(), (deps, env, info)).map_err(|e| StdError::generic_err(e.to_string()))
     }
     pub fn query(_deps: Deps, _env: Env, _msg: super::sv::ContractQueryMsg) -> StdResult<Binary> {
         sylvia::cw_std::to_json_binary("ov-query")
     }
     pub fn sudo(deps: DepsMut, env: Env, msg: super::sv::ContractSudoMsg) -> StdResult<Response> {
+        failing(deps.storage, "sudo")?;
         mark(deps.storage, "sudo");
-        msg.dispatch(&Ct::new(), (deps, env))
+        msg.dispatch(&Ct::new(), (deps, env)).map_err(|e| StdError::generic_err(e.to_string()))
     }
     pub fn migrate(deps: DepsMut, env: Env, msg: super::sv::MigrateMsg) -> StdResult<Response> {
+        failing(deps.storage, "migrate")?;
         mark(deps.storage, "migrate");
-        msg.dispatch(&Ct::new(), (deps, env))
+        msg.dispatch(&Ct::new(), (deps, env)).map_err(|e| StdError::generic_err(e.to_string()))
     }
     pub fn reply(deps: DepsMut, _env: Env, msg: Reply) -> StdResult<Response> {
         mark(deps.storage, &format!("reply#{}", msg.id));
@@ -49,6 +61,7 @@ fn ran(storage: &mut dyn Storage, k: &str) {
 
 #[entry_points]
 #[contract]
+#[sv::error(ContractError)]
 @ATTRS@
 impl Ct {
     pub const fn new() -> Self {
@@ -117,5 +130,30 @@ fn main() {
     let st = a.contract_storage(&addr);
     out.push(format!("ov=[{}]", String::from_utf8_lossy(&st.get(b"ov").unwrap_or_default())));
     out.push(format!("ran=[{}]", String::from_utf8_lossy(&st.get(b"ran").unwrap_or_default())));
-    println!("{}", out.join(" "));
+    drop(st);
+    drop(a);
+    // the overrides now fail with a bare StdError: what do the proxies hand back?
+    {
+        let mut a = app.app_mut();
+        a.contract_storage_mut(&addr).set(b"ovfail", b"1");
+    }
+    use sv::mt::CtProxy;
+    let proxy: Proxy<'_, MtApp, Ct> = Proxy::new(addr.clone(), &app);
+    let show = |r: Result<AppResponse, ContractError>| match r {
+        Ok(_) => "ok".to_string(),
+        Err(e) => format!("err {}", e),
+    };
+    let r = std::panic::catch_unwind(std::panic::AssertUnwindSafe(|| show(proxy.noop().call(&alice))));
+    out.push(format!("p_exec={}", r.unwrap_or_else(|_| "PANIC".into())));
+    let r = std::panic::catch_unwind(std::panic::AssertUnwindSafe(|| show(proxy.su())));
+    out.push(format!("p_sudo={}", r.unwrap_or_else(|_| "PANIC".into())));
+    let r = std::panic::catch_unwind(std::panic::AssertUnwindSafe(|| show(proxy.mig().call(&alice, code))));
+    out.push(format!("p_migrate={}", r.unwrap_or_else(|_| "PANIC".into())));
+    let code2 = sv::mt::CodeId::<Ct, _>::store_code(&app);
+    let r = std::panic::catch_unwind(std::panic::AssertUnwindSafe(|| match code2.instantiate(13).call(&alice) {
+        Ok(_) => "ok".to_string(),
+        Err(e) => format!("err {}", e),
+    }));
+    out.push(format!("p_instantiate={}", r.unwrap_or_else(|_| "PANIC".into())));
+    println!("{}", out.join("; "));
 }
